@@ -171,6 +171,9 @@ class Acceptor(tyming.Tymee):
             self.ss.close()  #close socket
             self.ss = None
             self.opened = False
+        while self.axes:  # accepted connections not yet serviced
+            cs, ca = self.axes.popleft()
+            cs.close()
 
     def accept(self):
         """
